@@ -328,7 +328,7 @@ func TestC18(t *testing.T) {
 	if r.ReplayOnly() {
 		return
 	}
-	r.Rapid(t, "groups", 160, 5000, func(t *rapid.T) {
+	r.Rapid(t, "groups", 160, 2000, func(t *rapid.T) {
 		c := drawC18(t, 8192)
 		if o := c18Eval(r, c); o.msg != "" {
 			r.Violation(t, "interference", c, "%s", o.msg)
@@ -340,7 +340,7 @@ func TestC18(t *testing.T) {
 	// transform on data chosen to take that transform's early-exit / error paths (malformed UTF-8, truncated
 	// sequences, hostile headers, incompressible bytes), then the victim again, sequentially: both victim runs must
 	// be byte-identical.
-	r.Rapid(t, "history-independence", 120, 6000, func(t *rapid.T) {
+	r.Rapid(t, "history-independence", 120, 2500, func(t *rapid.T) {
 		focus := rapid.SampledFrom(gen.TransformNames[1:]).Draw(t, "focus")
 		if rapid.IntRange(0, 2).Draw(t, "detectors") != 0 {
 			// transforms with content detection and early exits, two times out of three
